@@ -62,8 +62,9 @@ def run_one(m):
             meta = {}
             try: meta = json.load(open(m + "/meta.json"))
             except Exception: pass
-            for kv in (meta.get("env") or "").split():
-                if "=" in kv:
+            import re
+            for kv in str(meta.get("env") or "").split():
+                if re.match(r"^[A-Z][A-Z0-9_]*=[^ ]+$", kv):
                     a, b = kv.split("=", 1); env[a] = b
             t0 = time.time()
             r = subprocess.run([VERIF + "/check", pr, tier], cwd=VERIF, env=env, capture_output=True, text=True)
